@@ -10,9 +10,10 @@ writes <builddir>/C19_types_<K>.inc, one line per type:
 
 The *quick* table is the same for every seed (so that a replay never depends on VERIF_SEED):
     every static/dynamic pattern of rank 0..3 over static values {0,2,3} (85 patterns) and every static/dynamic mask of
-    rank 4 (16 patterns, static values rotated through {2,3,0});  every pattern of rank <= 2 is instantiated with all
-    8 index types (int8..uint64), every pattern of rank 3/4 with TWO index types chosen by rotation so that each of
-    the 8 index types meets every rank and every mask.
+    rank 4 (16 patterns, static values rotated through {2,3,0}), each with one index type (two for rank 1 and 2) chosen
+    by rotation so that each of the 8 index types int8..uint64 meets every rank and many masks;  plus the patterns
+    [], [d], [3], [d,d], [2,d], [d,3] with all 8 index types, [d,d,d] with int8/uint8, [d,d,d,d] with int8/uint8/uint64.
+    (About 160 types: the compile time of one type is ~3 s with ASan+UBSan, this is what fits the quick budget.)
 The *thorough* table adds a seeded sample of 300 further types (rank 1..4, static values 0..4, any index type).
 Types whose static extents alone are not representable (std: Mandates) are never emitted.
 Every type named by a saved case (replay/C19, violations/C19, known_findings.json) is added to every part, so a replay
@@ -64,22 +65,33 @@ def patterns(rank, values):
 
 
 def quick_table():
+    """pattern coverage (every pattern once or twice, index type by rotation) + index-type coverage (a few
+    representative patterns of every rank with all 8 index types)"""
     types = []
+
+    def add(it, pat):
+        if (it, pat) not in types:
+            types.append((it, pat))
+
+    allit = [t[0] for t in ITYPES]
     k = 0
     for rank in range(0, 4):
         for pat in patterns(rank, [0, 2, 3, None]):
-            if rank <= 2:
-                its = [t[0] for t in ITYPES]
-            else:
-                its = [ITYPES[k % 8][0], ITYPES[(k + 3) % 8][0]]
-                k += 1
-            for it in its:
-                types.append((it, pat))
+            n = {0: 8, 1: 2, 2: 2, 3: 1}[rank]
+            for j in range(n):
+                add(ITYPES[(k + 3 * j) % 8][0], pat)
+            k += 1
     rot = [2, 3, 0]
     for mask in range(16):
         pat = tuple(None if (mask >> (3 - i)) & 1 else rot[(mask + i) % 3] for i in range(4))
-        for it in (ITYPES[mask % 8][0], ITYPES[(mask + 3) % 8][0], ITYPES[(mask + 5) % 8][0]):
-            types.append((it, pat))
+        add(ITYPES[(mask * 3 + 1) % 8][0], pat)
+    for pat in [(None,), (3,), (None, None), (2, None), (None, 3)]:
+        for it in allit:
+            add(it, pat)
+    for it in ("i8", "u8"):
+        add(it, (None, None, None))
+    for it in ("i8", "u8", "u64"):
+        add(it, (None, None, None, None))
     return types
 
 
